@@ -71,38 +71,64 @@ Poison == <<-1>>
 PoisonFetched(S, plan) == plan.poisoned /\ S.inp = <<>>
 RunCli(prog, plan, n) ==
   LET S0 == [InitState(<<>>) EXCEPT !.inp = plan.lines \o (IF plan.poisoned THEN <<Poison>> ELSE <<>>)]
-      go(acc, i) == IF Running(acc[2], prog) /\ ~PoisonFetched(acc[2], plan) /\ ~BigValue(acc[2], 40)
+      go(acc, i) == IF Running(acc[2], prog) /\ ~PoisonFetched(acc[2], plan) /\ ~BigValue(acc[2], 16)
                     THEN <<acc[2], Step(acc[2], prog)>> ELSE acc
   IN FoldLeft(go, <<S0, S0>>, [i \in 1 .. n |-> i])       \* <<state before the last step, final state>>
 
 FileErrors == {"missing", "wrongExt", "noExt", "directory"}
-\* the verdict for one recorded run; "ok" | "bad" | "skip"
-CliVerdict(e, bound) ==
-  IF e.panicked THEN "bad"
-  ELSE IF e.fileKind \in FileErrors THEN (IF e.code = 1 /\ e.diag THEN "ok" ELSE "bad")
+
+\* ---- the tool's own log on standard output: one line per pipeline stage entered, before anything the
+\* program writes.  (Outside the listed properties: a disagreement is reported as LOG-DRIFT, never as a
+\* violation.)  A line is [k |-> kind, n |-> number]: "parsing" (n = 1: it names the file given),
+\* "total" (n commands, only with --verbose), "optimizing" (to level n, only for n >= 1), "running".
+Prelude(sub, level, verbose, ncmds) ==
+  <<[k |-> "parsing", n |-> 1]>>
+  \o (IF verbose THEN <<[k |-> "total", n |-> ncmds]>> ELSE <<>>)
+  \o (IF sub = "run" THEN (IF level >= 1 THEN <<[k |-> "optimizing", n |-> level]>> ELSE <<>>)
+                          \o <<[k |-> "running", n |-> 0]>>
+      ELSE <<>>)
+PrefixesOf(p) == {SubSeq(p, 1, k) : k \in 0 .. Len(p)}
+
+\* the judgement of one recorded run: v: "ok" | "bad" | "skip" (the property), log: "ok" | "drift" | "none"
+CliJudge(e, bound) ==
+  LET hasLog == "log" \in DOMAIN e
+      logIn(ps) == IF ~hasLog THEN "none" ELSE IF e.log \in ps THEN "ok" ELSE "drift"
+      J(v, lg) == [v |-> v, log |-> lg]
+  IN
+  IF e.panicked THEN J("bad", "none")
+  ELSE IF e.fileKind \in FileErrors THEN J(IF e.code = 1 /\ e.diag THEN "ok" ELSE "bad", logIn({<<>>}))
   ELSE LET f == Utf8Decode(e.file) IN
-  IF ~f.ok THEN (IF e.code = 1 /\ e.diag THEN "ok" ELSE "bad")
+  IF ~f.ok THEN J(IF e.code = 1 /\ e.diag THEN "ok" ELSE "bad", logIn({<<>>}))     \* rejected before parsing
   ELSE LET cmds == Commands(f.cps)
-           prog == [i \in DOMAIN cmds |-> Core(cmds[i])] IN
-  IF e.sub = "check" THEN (IF e.code = 0 /\ ~e.timeout /\ e.lines = Len(prog) THEN "ok" ELSE "bad")
+           prog == [i \in DOMAIN cmds |-> Core(cmds[i])]
+           P == Prelude(e.sub, e.level, hasLog /\ e.verbose, Len(prog))
+           lg == IF e.timeout THEN logIn(PrefixesOf(P))
+                 \* an error diagnosed at level >= 1 is raised either while optimising or while running
+                 ELSE IF e.sub = "run" /\ e.level >= 1 /\ e.code = 1 /\ e.diag THEN logIn({P, Front(P)})
+                 ELSE logIn({P})
+       IN
+  IF e.sub = "check" THEN J(IF e.code = 0 /\ ~e.timeout /\ e.lines = Len(prog) THEN "ok" ELSE "bad", lg)
   ELSE LET plan == InputPlan(e.stdin)
            r == RunCli(prog, plan, bound)
            S == r[2]
            so == Utf8Decode(e.stdout)
            se == Utf8Decode(e.stderr)
-       IN IF S.status = "unspec" THEN "skip"
-          ELSE IF ~so.ok \/ ~se.ok THEN "bad"
-          ELSE IF PoisonFetched(S, plan) /\ S.status = "run" THEN
-               \* the program asked for input that is not UTF-8: diagnosed, status 1
-               (IF e.code = 1 /\ Len(e.stderr) > Len(Utf8Encode(r[1].err)) /\ IsPrefix(r[1].out, so.cps) /\ IsPrefix(so.cps, S.out)
-                THEN "ok" ELSE "bad")
-          ELSE IF S.status = "encerr" THEN
-               (IF e.code = 1 /\ e.diag /\ IsPrefix(so.cps, S.out) THEN "ok" ELSE "bad")        \* diag: stderr not empty
-          ELSE IF Running(S, prog) THEN
-               \* cut by the bound: possibly non-terminating; only prefix-compatibility is claimed
-               (IF (e.timeout \/ e.code \in {0, 1}) /\ (IsPrefix(so.cps, S.out) \/ IsPrefix(S.out, so.cps)) THEN "ok" ELSE "bad")
-          ELSE IF /\ ~e.timeout
-                  /\ e.code = (IF S.status = "exit1" THEN 1 ELSE 0)
-                  /\ so.cps = S.out /\ se.cps = S.err
-               THEN "ok" ELSE "bad"
+           v == IF S.status = "unspec" THEN "skip"
+                ELSE IF ~so.ok \/ ~se.ok THEN "bad"
+                ELSE IF PoisonFetched(S, plan) /\ S.status = "run" THEN
+                     \* the program asked for input that is not UTF-8: diagnosed, status 1
+                     (IF e.code = 1 /\ Len(e.stderr) > Len(Utf8Encode(r[1].err)) /\ IsPrefix(r[1].out, so.cps) /\ IsPrefix(so.cps, S.out)
+                      THEN "ok" ELSE "bad")
+                ELSE IF S.status = "encerr" THEN
+                     (IF e.code = 1 /\ e.diag /\ IsPrefix(so.cps, S.out) THEN "ok" ELSE "bad")        \* diag: stderr not empty
+                ELSE IF Running(S, prog) THEN
+                     \* cut by the bound: possibly non-terminating; only prefix-compatibility is claimed
+                     (IF (e.timeout \/ e.code \in {0, 1}) /\ (IsPrefix(so.cps, S.out) \/ IsPrefix(S.out, so.cps)) THEN "ok" ELSE "bad")
+                ELSE IF /\ ~e.timeout
+                        /\ e.code = (IF S.status = "exit1" THEN 1 ELSE 0)
+                        /\ so.cps = S.out /\ se.cps = S.err
+                     THEN "ok" ELSE "bad"
+       IN J(v, IF v = "skip" THEN "none" ELSE lg)
+\* the verdict for one recorded run; "ok" | "bad" | "skip"
+CliVerdict(e, bound) == CliJudge(e, bound).v
 =============================================================================
